@@ -57,14 +57,42 @@ class NfaRoles:
         if self.outputs_pass is None:
             ctx.missing(rule, "outputs pass (pusher of %s.outputs)" % N)
             self.ok = False
-        # fail passes: functions of N (other than the outputs pass) assigning NS.fail
-        self.fail_passes = []
+        # fail passes: the functions of N that the builders call (entry points from outside N) and that assign NS.fail themselves or
+        # through private helpers of N (a `set_fail` helper is not a pass of its own: the normal form inlines it)
+        writers = set()
         for b, bi, kind, payload in fw.get((self.NS, "fail"), []):
             owner = b
             while owner.is_closure:
                 owner = lib.bodies.get(owner.j["closure_parent"], owner)
-            if kind == "assign" and owner.j.get("impl_adt") == N and owner not in self.fail_passes:
-                self.fail_passes.append(owner)
+            if kind == "assign" and owner.j.get("impl_adt") == N:
+                writers.add(owner.path)
+        nfns = {b.path: b for b in lib.find_bodies(adt=N)}
+        callees = {}
+        for pth, b in nfns.items():
+            outs = set()
+            for bb_ in lib.with_closures(b):
+                for bi, c, t in bb_.calls():
+                    if c.body_path in nfns and c.body_path != pth:
+                        outs.add(c.body_path)
+            callees[pth] = outs
+        called_from_outside = set()
+        for ob in lib.bodies.values():
+            owner = ob
+            while owner.is_closure:
+                owner = lib.bodies.get(owner.j["closure_parent"], owner)
+            if owner.path in nfns or "::tests::" in owner.path:
+                continue
+            for bi, c, t in ob.calls():
+                if c.body_path in nfns:
+                    called_from_outside.add(c.body_path)
+
+        def reaches_writer(pth, seen=()):
+            if pth in writers:
+                return True
+            return any(reaches_writer(q, seen + (pth,)) for q in callees.get(pth, ()) if q not in seen)
+        self.fail_passes = [nfns[pth] for pth in sorted(nfns) if pth in called_from_outside and reaches_writer(pth)]
+        if not self.fail_passes:
+            self.fail_passes = [nfns[pth] for pth in sorted(writers) if pth in nfns]
         self.child_id = lib.one_body(adt=N, name="child_id")
         # dispatch: which pass is the standard one
         self.std_pass = None
@@ -968,7 +996,20 @@ def rule_child_id(ctx, R, NR):
         return
     fv = FnView(lib, b)
     t = pnorm(fv.resolve(fv.root.ret()))
-    ok = m(C("alloc::collections::BTreeMap::get", F(nfa_state(Par(2)), "edges", NR.NS), Par(3)), t)
+    look = C("alloc::collections::BTreeMap::get", F(nfa_state(Par(2)), "edges", NR.NS), Par(3))
+    ok = m(look, t)
+    if not ok and m(Phi(("agg", OPTION, "None", ()), ("agg", OPTION, "Some", (("0", P(look)),)), req=[0, 1]), t):
+        # `match edges.get(&c) { Some(&id) => Some(id), None => None }`: Some exactly when the lookup is Some (evaluated under both
+        # assumptions: no guard may turn a hit into None)
+        root = fv.root
+        is_look = lambda x: m(look, x)
+        somes = {bi for bi, si, st in b.stmts() if st["k"] == "assign" and st["lhs"]["local"] == 0 and not st["lhs"]["proj"] and
+                 st["rv"]["k"] == "aggregate" and st["rv"].get("variant") == "Some"}
+        nones = {bi for bi, si, st in b.stmts() if st["k"] == "assign" and st["lhs"]["local"] == 0 and not st["lhs"]["proj"] and
+                 st["rv"]["k"] == "aggregate" and st["rv"].get("variant") == "None"}
+        v_hit = cond.explore(root, [0], [], some_atoms=[(is_look, True)])
+        v_miss = cond.explore(root, [0], [], some_atoms=[(is_look, False)])
+        ok = v_hit is not None and v_miss is not None and bool(v_hit & somes) and not (v_hit & nones) and bool(v_miss & nones) and not (v_miss & somes)
     ctx.check(ok, "NFA-CHILD", b, "edge-lookup", b.span, "child_id(state, c) must be states[state].edges.get(&c); returns %s" % show(t), show(t))
 
 
